@@ -52,22 +52,19 @@ func (x *Exec) mapComps(mt *types.Map) (string, *Sort) {
 
 func (x *Exec) mapHasQuiet(st *State, mt *types.Map, m, k *Term) *Term {
 	name, ks := x.mapComps(mt)
-	h := x.heap(st, name+".has", Arr(IntS, Arr(ks, BoolS)))
-	return And(Not(Eq(m, IntLit(0))), Select(Select(h, m), k))
+	return And(Not(Eq(m, IntLit(0))), Select(x.objGet(st, name+".has", Arr(ks, BoolS), m), k))
 }
 
 func (x *Exec) mapLenQuiet(st *State, mt *types.Map, m *Term) *Term {
 	name, _ := x.mapComps(mt)
-	h := x.heap(st, name+".len", Arr(IntS, bv64))
-	return Ite(Eq(m, IntLit(0)), BVLit(0, 64), Select(h, m))
+	return Ite(Eq(m, IntLit(0)), BVLit(0, 64), x.objGet(st, name+".len", bv64, m))
 }
 
 func (x *Exec) mapLoadQuiet(st *State, mt *types.Map, m, k *Term) Value {
 	name, ks := x.mapComps(mt)
 	has := x.mapHasQuiet(st, mt, m, k)
 	return fromComps(mt.Elem(), func(suffix string, s *Sort) *Term {
-		h := x.heap(st, name+".val"+suffix, Arr(IntS, Arr(ks, s)))
-		return Ite(has, Select(Select(h, m), k), zeroTerm(s))
+		return Ite(has, Select(x.objGet(st, name+".val"+suffix, Arr(ks, s), m), k), zeroTerm(s))
 	})
 }
 
@@ -76,11 +73,9 @@ func (x *Exec) initMap(n *node, t types.Type, r *Term) {
 	mt := t.Underlying().(*types.Map)
 	name, ks := x.mapComps(mt)
 	hs := Arr(ks, BoolS)
-	h := x.heap(st, name+".has", Arr(IntS, hs))
 	empty := mk("(as const "+hs.String()+")", hs, False)
-	x.setHeap(st, name+".has", x.VC.Def("H.map.has", Store(h, r, empty)), r)
-	hl := x.heap(st, name+".len", Arr(IntS, bv64))
-	x.setHeap(st, name+".len", x.VC.Def("H.map.len", Store(hl, r, BVLit(0, 64))), r)
+	x.objSet(st, name+".has", r, empty)
+	x.objSet(st, name+".len", r, BVLit(0, 64))
 }
 
 func (x *Exec) mapUpdate(n *node, m, k, v Value, i *ssa.MapUpdate) {
@@ -95,16 +90,14 @@ func (x *Exec) mapUpdate(n *node, m, k, v Value, i *ssa.MapUpdate) {
 	x.guardMap(n, i.Map, ms.T, i.Pos(), true)
 	name, ks := x.mapComps(mt)
 	kt := x.mapKeyTerm(k, mt.Key(), nil)
-	h := x.heap(st, name+".has", Arr(IntS, Arr(ks, BoolS)))
-	was := x.VC.Def("map.was", Select(Select(h, ms.T), kt))
-	x.setHeap(st, name+".has", x.VC.Def("H.map.has", Store(h, ms.T, Store(Select(h, ms.T), kt, True))), ms.T)
-	hl := x.heap(st, name+".len", Arr(IntS, bv64))
-	nl := BVBin("bvadd", Select(hl, ms.T), Ite(was, BVLit(0, 64), BVLit(1, 64)))
-	x.setHeap(st, name+".len", x.VC.Def("H.map.len", Store(hl, ms.T, nl)), ms.T)
+	hasIn := x.objGet(st, name+".has", Arr(ks, BoolS), ms.T)
+	was := x.VC.Def("map.was", Select(hasIn, kt))
+	x.objSet(st, name+".has", ms.T, Store(hasIn, kt, True))
+	nl := BVBin("bvadd", x.objGet(st, name+".len", bv64, ms.T), Ite(was, BVLit(0, 64), BVLit(1, 64)))
+	x.objSet(st, name+".len", ms.T, nl)
 	okv := toComps(mt.Elem(), v, func(suffix string, tm *Term) {
 		key := name + ".val" + suffix
-		hv := x.heap(st, key, Arr(IntS, Arr(ks, tm.S)))
-		x.setHeap(st, key, x.VC.Def("H.map.val", Store(hv, ms.T, Store(Select(hv, ms.T), kt, tm))), ms.T)
+		x.objSet(st, key, ms.T, Store(x.objGet(st, key, Arr(ks, tm.S), ms.T), kt, tm))
 	})
 	if !okv {
 		x.VC.Warnf("MapUpdate with unsupported value %T in %s", v, x.TopName)
@@ -131,8 +124,7 @@ func (x *Exec) lookup(n *node, m, k Value, i *ssa.Lookup) Value {
 	has := x.VC.Def(i.Name()+".has", x.mapHasQuiet(st, mt, ms.T, kt))
 	name, ks := x.mapComps(mt)
 	val := fromComps(mt.Elem(), func(suffix string, s *Sort) *Term {
-		h := x.heap(st, name+".val"+suffix, Arr(IntS, Arr(ks, s)))
-		return x.VC.Def(i.Name()+suffix, Ite(has, Select(Select(h, ms.T), kt), zeroTerm(s)))
+		return x.VC.Def(i.Name()+suffix, Ite(has, Select(x.objGet(st, name+".val"+suffix, Arr(ks, s), ms.T), kt), zeroTerm(s)))
 	})
 	x.assumeTypeInv(val, n.guard, st)
 	if i.CommaOk {
@@ -147,15 +139,13 @@ func (x *Exec) mapDelete(n *node, t types.Type, m *Term, k Value, pos token.Pos)
 	name, ks := x.mapComps(mt)
 	kt := x.mapKeyTerm(k, mt.Key(), nil)
 	x.guardMapByType(n, mt, m, pos, true)
-	h := x.heap(st, name+".has", Arr(IntS, Arr(ks, BoolS)))
-	// delete on a nil map is a no-op
+	// delete on a nil map is a no-op (object 0 is never a real map, so updating it is harmless)
 	nonnil := Not(Eq(m, IntLit(0)))
-	was := x.VC.Def("map.was", And(nonnil, Select(Select(h, m), kt)))
-	nh := Ite(nonnil, Store(h, m, Store(Select(h, m), kt, False)), h)
-	x.setHeap(st, name+".has", x.VC.Def("H.map.has", nh), m)
-	hl := x.heap(st, name+".len", Arr(IntS, bv64))
-	nl := BVBin("bvsub", Select(hl, m), Ite(was, BVLit(1, 64), BVLit(0, 64)))
-	x.setHeap(st, name+".len", x.VC.Def("H.map.len", Ite(nonnil, Store(hl, m, nl), hl)), m)
+	hasIn := x.objGet(st, name+".has", Arr(ks, BoolS), m)
+	was := x.VC.Def("map.was", And(nonnil, Select(hasIn, kt)))
+	x.objSet(st, name+".has", m, Store(hasIn, kt, False))
+	nl := BVBin("bvsub", x.objGet(st, name+".len", bv64, m), Ite(was, BVLit(1, 64), BVLit(0, 64)))
+	x.objSet(st, name+".len", m, nl)
 	x.ghostMapDelete(n, mt, m, kt, was)
 }
 
